@@ -821,6 +821,13 @@ hdf_xdr_NCvdata(NC *handle, NC_var *vp, unsigned long where, nc_type type, uint3
         }
     }
 
+    /* the element may already have been opened (by a read) when the first write
+       asked for its length to be set: hdf_get_vp_aid did not see the request */
+    if (vp->set_length == TRUE) {
+        Hsetlength(vp->aid, vp->len);
+        vp->set_length = FALSE;
+    }
+
     /*
        Figure out if the tag/ref is a compressed special-element with no data.
        This "template" tag/ref is treated as if the tag/ref doesn't exist at
